@@ -280,10 +280,14 @@ func (f *family) doRollupWork(sourceFamily Family, rollup Rollup, sourceFiles []
 	var inputFiles []*version.FileMeta
 	var logs []version.Log
 	for fileNumber := range targetFiles {
-		if fm, ok := v.GetFile(0, fileNumber); ok {
-			inputFiles = append(inputFiles, fm)
-			logs = append(logs, version.CreateNewReferenceFile(sourceStore, sourceFamilyID, fileNumber))
+		fm, ok := v.GetFile(0, fileNumber)
+		if !ok {
+			// file has been compacted out of level0 meanwhile, but it is kept alive until the rollup is
+			// done(see deleteObsoleteFiles), so it still can(and must) be rolled up.
+			fm = version.NewFileMeta(fileNumber, 0, 0, 0)
 		}
+		inputFiles = append(inputFiles, fm)
+		logs = append(logs, version.CreateNewReferenceFile(sourceStore, sourceFamilyID, fileNumber))
 	}
 	compaction := version.NewCompaction(f.ID(), 0, inputFiles, nil)
 	// add reference file edit logs
